@@ -4,7 +4,7 @@ shapes of schema element classes, all as uninterpreted functions of the object i
 import z3
 
 from pyvc import sym, refs
-from pyvc.sym import VBool, VStr, Unsupported, sor
+from pyvc.sym import VBool, VInt, VStr, Unsupported, sor
 from theories import gtypes as G
 
 K = G.K
@@ -22,7 +22,55 @@ TY_ATTRS = {
 }
 
 
+class ValidSchemaTheory:
+    """Schema validity facts (A7), only in proofs whose contract says valid_schema=True:
+    the types of input fields and arguments are input types, the types of fields output types."""
+
+    DEPTH = 2
+
+    def reset(self, it):
+        it._vs_done = set()
+        it._vs_keep = []
+
+    def snapshot(self, it):
+        return set(it._vs_done)
+
+    def restore(self, it, snap):
+        it._vs_done = snap
+
+    def saturate(self, it, formulas):
+        c = getattr(it, "contract", None)
+        if c is None or not getattr(c, "valid_schema", False):
+            return []
+        from pyvc.rec import _has_var
+        added = []
+        stack = [f[0] if isinstance(f, tuple) else f for f in formulas]
+        seen = set()
+        while stack:
+            e = stack.pop()
+            i = e.get_id()
+            if i in seen:
+                continue
+            seen.add(i)
+            if z3.is_quantifier(e):
+                stack.append(e.body())
+                continue
+            if not z3.is_app(e):
+                continue
+            nm = e.decl().name()
+            if nm in ("GraphQLInputField.type#0", "GraphQLArgument.type#0", "GraphQLField.type#0") \
+                    and not _has_var(e) and i not in it._vs_done:
+                it._vs_done.add(i)
+                it._vs_keep.append(e)
+                f = G.OUTPUT(e) if nm.startswith("GraphQLField") else G.INPUT(e)
+                it.S.add(f)
+                added.append((f, 1))
+            stack.extend(e.children())
+        return added
+
+
 def install(w):
+    w.theories.append(ValidSchemaTheory())
     VTy = G.VTy
     w.alias("GraphQLField", "graphql.type.definition.GraphQLField")
     w.alias("GraphQLArgument", "graphql.type.definition.GraphQLArgument")
@@ -105,6 +153,11 @@ def install(w):
                 spec = ("omap", "ref:GraphQLInputField")
                 return refs.read_attr(it, "Ty", t, G.TyS, "fields_in", spec)
             return refs.read_attr(it, "Ty", t, G.TyS, "fields_out", ("omap", "ref:GraphQLField"))
+        if attr == "out_type":
+            it.guard(G.tkind(t) == K["INPUT_OBJECT"], AttributeError, node, "SAFE-Attr")
+            d = it.fresh_dyn("out_type")
+            it.sadd(sym.tag(d.t) == sym.TAGS["other"])   # a user supplied callable
+            return d
         if attr in TY_ATTRS:
             kinds, spec = TY_ATTRS[attr]
             it.guard(sor(*[G.tkind(t) == k for k in kinds]), AttributeError, node, "SAFE-Attr")
@@ -204,6 +257,14 @@ def install(w):
         abstract = z3.Or(G.tkind(c) == K["INTERFACE"], G.tkind(c) == K["UNION"])
         return VBool(z3.And(known, z3.Or(c == ty.t, z3.And(abstract, G.possible(schema.t, c, ty.t)))))
     w.spec_funcs["cond_applies"] = f_cond_applies
+
+    NODE_SIZE = z3.Function("node_size", refs.RefS, sym.I)
+
+    def f_node_size(it, n):
+        """well-founded size of an AST value node (children are smaller): ghost measure"""
+        it.sadd(NODE_SIZE(n.t) >= 0)
+        return VInt(NODE_SIZE(n.t))
+    w.spec_funcs["node_size"] = f_node_size
 
     def f_ty_name(it, t):
         return refs.read_attr(it, "Ty", t.t, G.TyS, "name", "str")
